@@ -197,18 +197,12 @@ func vC03(s vJSpec) {
 }
 
 func H_C03_encode() {
-	s := vJSpec{depth: 2, width: 2, innerMap: 2, innerList: 2, scalars: "sn", strAlpha: "x<", attrs: true}
-	if vTier() == 1 {
-		s = vJSpec{depth: 2, width: 2, innerMap: 2, innerList: 2, scalars: "senbf", strAlpha: "x<&", attrs: true}
-	}
+	s := vJSpec{depth: vP("depth", 2, 2), width: vP("width", 2, 2), innerMap: vP("map", 2, 2), innerList: vP("list", 2, 2), scalars: []string{"sn", "senbf"}[vP("rich", 0, 1)], strAlpha: []string{"x<", "x<&"}[vP("rich", 0, 1)], attrs: true}
 	vC03(s)
 }
 
 func H_C03_encode_deep() {
-	s := vJSpec{depth: 4, width: 1, innerMap: 1, innerList: 1, scalars: "senbf", strAlpha: "x<", attrs: true}
-	if vTier() == 1 {
-		s = vJSpec{depth: 6, width: 1, innerMap: 1, innerList: 1, scalars: "senbfi", strAlpha: "x<", attrs: true}
-	}
+	s := vJSpec{depth: vP("depth", 4, 6), width: 1, innerMap: 1, innerList: 1, scalars: []string{"senbf", "senbfi"}[vP("rich", 0, 1)], strAlpha: "x<", attrs: true}
 	vC03(s)
 }
 
@@ -216,10 +210,7 @@ func H_C03_encode_deep() {
 func H_C03_anyxml() {
 	vResetDecOpts()
 	XMLEscapeChars(true)
-	s := vJSpec{depth: 2, width: 2, innerMap: 1, innerList: 2, scalars: "snb", strAlpha: "x<", attrs: false}
-	if vTier() == 1 {
-		s = vJSpec{depth: 2, width: 2, innerMap: 2, innerList: 2, scalars: "senbfi", strAlpha: "x<", attrs: true}
-	}
+	s := vJSpec{depth: vP("depth", 2, 2), width: vP("width", 2, 2), innerMap: vP("map", 1, 2), innerList: vP("list", 2, 2), scalars: []string{"snb", "senbfi"}[vP("rich", 0, 1)], strAlpha: "x<", attrs: vP("attrs", 0, 1) == 1}
 	v := vNondetJSON(s, s.depth, true)
 	var root *vXElem
 	rt := "doc"
